@@ -13,6 +13,7 @@ if ! cmp -s _CoqProject.new _CoqProject 2>/dev/null || [ ! -f Makefile ]; then
 else
   rm -f _CoqProject.new
 fi
+ulimit -v ${COQ_VMEM_KB:-24000000} 2>/dev/null   # a runaway tactic must not take the machine down
 if [ $# -eq 0 ]; then
   timeout "${COQ_BUILD_TIMEOUT:-3000}" make -j"${COQ_JOBS:-16}" 2>&1
 else
